@@ -51,7 +51,7 @@ CLAIMED = {
    technique="Lean 4 proof (decision logic, case analysis) + correspondence on an in-process sequential network",
    design="5/C09"),
  'C10': dict(
-   text="Lean model of LoginReactor.react with explicit framing state (cipher on/off, threshold, forced vs queued writes, RSA and JSON-text extraction as parameters); theorems for ALL step lists (any order/length of server events and loop write phases): the encryption response is the last plaintext frame, carries rsa(secret)/rsa(token) (RSA law recovers them) and everything written later is encrypted; the announced threshold applies to every later frame; plugin requests are each answered once, in order, unsuccessfully absent a handler; success enters play; a disconnect always records LoginDisconnect(msg) or VersionMismatch(ver) exactly per the two 'Outdated' patterns and stops processing; join called iff online id and token, with the verification hash. Correspondence on the sequential simnet: independent server with textbook RSA and pure-Python AES-CFB8 over versions either side of 385/391/707; the string passed to join is also checked against the Lean SHA-1 hash (C17 link); two logins on one Connection (handler reconnect) must not share framing state. Byte level (Props/C10Wire): the bytes handed to the socket are plaintext frames up to and including the encryption response and AES-CFB8 of the rest, an independent server recovers the outbox and the secret; driver loginwire.run is compared with the raw bytes the real client sent.",
+   text="Lean model of LoginReactor.react with explicit framing state (cipher on/off, threshold, forced vs queued writes, RSA and JSON-text extraction as parameters); theorems for ALL step lists (any order/length of server events and loop write phases): the encryption response is the last plaintext frame, carries rsa(secret)/rsa(token) (RSA law recovers them) and everything written later is encrypted; the announced threshold applies to every later frame; plugin requests are each answered once, in order, unsuccessfully absent a handler; success enters play; a disconnect always records LoginDisconnect(msg) or VersionMismatch(ver) exactly per the two 'Outdated' patterns and stops processing; join called iff online id and token, with the verification hash. Correspondence on the sequential simnet: independent server with textbook RSA and pure-Python AES-CFB8 over versions either side of 385/391/707; the string passed to join is also checked against the Lean SHA-1 hash (C17 link); two logins on one Connection (handler reconnect) must not share framing state. Byte level (Props/C10Wire): the bytes handed to the socket are plaintext frames up to and including the encryption response and AES-CFB8 of the rest, an independent server recovers the outbox and the secret; driver loginwire.run is compared with the raw bytes the real client sent. Whole session (Props/Session): handshake + login + play as one client byte stream and one reference server; the cipher context and the threshold of the login state continue into the play state (restart / forgotten threshold refuted); driver session.run compared with the raw bytes of whole real sessions.",
    note="RSA is a parameter with dec(enc m)=m; JSON parsing and the regex engine are CPython's (the regex is mirrored by an explicit recogniser proved equivalent to a declarative reading). Forced/queued is not observable at the server and is dropped from the comparison; ids of the 1.13 snapshots 385..390 come from pyCraft's own tables.",
    technique="Lean 4 proof (invariants over arbitrary step lists) + correspondence on sequential simnet with an independent crypto peer",
    design="5/C10"),
